@@ -22,9 +22,11 @@ Tolerances (all derived here, see ``tol_pos``):
 * ``solveKeplerProblemUniversal`` stops when the universal anomaly moves by < ``_ATOL`` = 1.48e-8 sqrt(km) and evaluates
   f, g with the Stumpff terms of the previous iterate: dt = dchi * r / sqrt(mu) => position error <= _ATOL * r v /
   sqrt(mu) <= _ATOL * sqrt(2 r) (measured worst 0.15 of that for bound orbits).  Tolerance 2x that bound + 1e-8 km.
-* start-epoch shift under SP: both runs take the same step sequence; they differ only by the rounding of the Julian
-  date (resolution 4e-5 s => <= 2e-9 km per hour in LEO, measured) and of t.  Tolerance 1e-9 + 1e-7 * (T / 3600) km:
-  50x above, and 400x below the effect of a 1 s epoch slip over an hour in LEO (4e-5 km).
+* start-epoch shift under SP: the two runs see forces that differ by the rounding of the Julian date (resolution
+  4e-5 s); that is enough to flip one accept/reject decision of the step-size controller, after which the two
+  trajectories differ by up to the integrator's own global error E(T) (measured: 1.6e-8 km at T = 300 s with DOP853,
+  i.e. 0.02 E-envelopes; RK45 stays at 1e-11).  Tolerance = tol_pos / 10 = 3 E-envelopes (2e-5 km for a LEO hour); an
+  epoch that ignores or mis-scales the elapsed time is off by the shift itself (1000 s => 4e-2 km per LEO hour).
 * conservation: an energy error dE/E equals da/a; the along-track drift 3 pi revs da stays below the position
   envelope E(T), so |dE/E| <= E(T) / (3 pi revs a) ~ eps_loc (2 + 20 revs^2) / (10 revs a); measured worst 1.3e-9
   (RK45, one LEO day), 3e-11 for an hour.  Tolerance 1e-12 + rtol * 30 * (1 + 2 revs), same for |h| and the
@@ -36,6 +38,7 @@ import logging
 import math
 import os
 import signal
+import time
 from datetime import datetime, timedelta
 
 import numpy as np
@@ -274,8 +277,8 @@ def tol_conserve(a, T):
     return 1e-12 + 30.0 * RTOL * (1.0 + 2.0 * T / _period(a))
 
 
-def tol_epoch(T):
-    return 1e-9 + 1e-7 * (T / 3600.0)
+def tol_epoch(a, e, T):
+    return tol_pos(a, e, T) / 10.0
 
 
 class _RestartEvent(DiscreteStateChangeEvent):
@@ -562,8 +565,8 @@ def _conserve(ctx, orb, x0, x1, nontrivial, where):
 
 def _epoch(ctx, orb, x0, whole, jd):
     T, t0 = ctx.T, ctx.t0
-    tp = tol_epoch(T)
-    tv = 1e-12 + tp * 2e-3  # angular rate bound of the lattice (perigee of a=26560/e=0.7 and LEO: 1.2e-3 rad/s)
+    tp = tol_epoch(orb[0], orb[1], T)
+    tv = tol_vel(orb[0], orb[1], T) / 10.0
     # measured sensitivity: the same call with the epoch moved by 1000 s and t NOT compensated
     wit = _call(_dynamics(ctx.kind, ctx.method, jd + 1000.0 / 86400.0).propagate, t0, t0 + T, x0)
     sens = 0.0 if _bad(wit) else fw.maxabs(wit[:3], whole[:3])
@@ -804,6 +807,7 @@ def _run_stumpff(res, item):
 # ------------------------------------------------------------------------------------------------ driver
 def run_item(item):
     res = fw.Result()
+    cpu0 = time.process_time()
     kind = item[0]
     if kind == "prop":
         ratios = _run_prop(res, item).ratios
@@ -818,6 +822,7 @@ def run_item(item):
     else:
         raise ValueError(kind)
     res.ratios = {k: float(v) for k, v in ratios.items()}
+    res.cpu_s = time.process_time() - cpu0
     if kind == "prop":
         res.ratio_group = f"{item[1]}/{item[2]}/T={item[3]:g}"
     return res
@@ -832,8 +837,12 @@ def finalize(tier, seed, results):
                 worst[k] = v
                 where[k] = getattr(r, "ratio_group", "")
     out = fw.Result()
+    cpu = [getattr(r, "cpu_s", 0.0) for r in results]
+    out.extra["cpu_seconds_total"] = round(sum(cpu), 1)
+    out.extra["cpu_seconds_longest_item"] = round(max(cpu), 1)
     out.extra["worst_error_over_tolerance"] = {k: {"ratio": round(v, 5), "at": where[k]} for k, v in sorted(worst.items())}
     if os.environ.get("VERIF_C03_CALIB"):
+        print(f"  calib cpu total {sum(cpu):.1f} s, longest item {max(cpu):.1f} s", flush=True)
         for k, v in sorted(worst.items()):
             print(f"  calib {k}: worst err/tol = {v:.4g} at {where[k]}", flush=True)
     return out
